@@ -406,6 +406,8 @@ func (g *gen) families(a *Args, rng *Rng, emit func(*hcase), deferCase func(mk f
 			{get(u), on(1, get(u)), put(u, "valid:entry", canon(g.c("F2").Raw, nil)), get(u), on(1, get(u)), put(u, "valid:expired", canon(g.c("E1").Raw, nil)), get(u)},
 			// a directory comes and goes
 			{get(u), mkdir(u), get(u), on(1, g.set(u, "F1", "")), del(u), get(u), on(1, g.set(u, "F1", "")), get(u)},
+			// the same bundle object handed to consecutive Sets of both objects and urls
+			{g.set(u, "F1", "FD1"), on(1, g.set(v, "F1", "FD1")), get(u), get(v), g.set(u, "F1", "FD1"), on(1, get(u)), g.set(v, "F1", "N2"), g.set(u, "F1", "N2"), get(v), get(u)},
 			// errors are not remembered either
 			{g.set(u, "Z1", ""), get(u), g.set(u, "F1", "ZD1"), get(u), on(1, g.set(u, "F1", "")), get(u), setNil(u), get(u)},
 		} {
@@ -577,6 +579,10 @@ func (g *gen) account(w *CaseWriter, id int64, term string, hc *hcase) {
 	w.Count("history_length", fmt.Sprint(len(hc.Ops)))
 	if len(hc.Outside) > 0 {
 		w.Count("outside_effects", "yes")
+	}
+	if len(hc.Frame) > 0 {
+		w.Count("frame", "library mutated a caller-owned object")
+		w.ImplViolation(id, "library mutated caller-owned Bundle / RevocationList passed to FileCache.Set: "+hc.Frame[0], hc, "")
 	}
 	w.Add(id, term, hc, key.String(), nontrivial)
 }
